@@ -788,7 +788,10 @@ class ListenSocket:
         return getattr(self, "addr", ("localhost", 9999))
 
     def listen(self, n):
-        self.net.listening = self
+        # a bind host that stands for several addresses (see FakeSocketModule.getaddrinfo) can
+        # be given one listening socket per address
+        if self not in self.net.listeners:
+            self.net.listeners.append(self)
 
     def accept(self):
         self.net.sched.yield_point("accept")
@@ -809,7 +812,7 @@ class ListenSocket:
         self.closed = True
 
     def fileno(self):
-        return 3
+        return 3 + (self.net.listeners.index(self) if self in self.net.listeners else 0)
 
     def settimeout(self, t):
         pass
@@ -828,6 +831,19 @@ class FakeSocketModule:
 
     def socket(self, *a, **k):
         return ListenSocket(self.net)
+
+    def getaddrinfo(self, host, port, family=0, type=0, proto=0, flags=0):
+        # the bind host of the model stands for an IPv4 and an IPv6 address, as "localhost" and ""
+        # do on most systems; numeric hosts stand for themselves
+        import socket as real
+        if isinstance(host, str) and host and (host[0].isdigit() or ":" in host):
+            return real.getaddrinfo(host, port, family, type, proto, flags | real.AI_NUMERICHOST)
+        if isinstance(port, str):
+            port = int(port) if port.isdigit() else real.getservbyname(port)
+        passive = bool(flags & real.AI_PASSIVE) and not host
+        out = [(real.AF_INET, real.SOCK_STREAM, 6, "", ("0.0.0.0" if passive else "127.0.0.1", port or 0)),
+               (real.AF_INET6, real.SOCK_STREAM, 6, "", ("::" if passive else "::1", port or 0, 0, 0))]
+        return [e for e in out if family in (0, e[0])]
 
     def __getattr__(self, name):
         # constants, exception classes and helpers of the real module (IPPROTO_TCP, TCP_NODELAY,
@@ -851,6 +867,8 @@ class FakeSelector:
 
     def register(self, fileobj, events, data=None):
         self.objs.append(fileobj)
+        if fileobj not in self.net.servers:
+            self.net.servers.append(fileobj)
 
     def unregister(self, fileobj):
         pass
@@ -889,8 +907,15 @@ class Client:
 
     def enabled(self):
         if self.pos == -1:
-            return self.net.listening is not None and not self.net.listening.closed
+            target = self.target()
+            return target is not None and not target.closed
         return self.pos < len(self.fragments)
+
+    def target(self):
+        """the listening socket this client connects to: with one listener (the unmodified server)
+        that one; with one listener per address of the bind host the clients spread over them"""
+        ls = self.net.listeners
+        return ls[self.idx % len(ls)] if ls else None
 
     def progress(self):
         return (self.pos, self.conn is not None, bool(self.conn and self.conn.closed),
@@ -898,7 +923,7 @@ class Client:
 
     def step(self):
         if self.pos == -1:
-            self.net.listening.pending.append(self)
+            self.target().pending.append(self)
             self.queued = True
             self.pos = 0
             return
@@ -931,9 +956,14 @@ class Client:
 class Net:
     def __init__(self, ctx):
         self.sched = Sched(ctx)
-        self.listening = None
+        self.listeners = []
+        self.servers = []          # the socketserver objects that entered serve_forever
         self.clients = []
         self.default_timeout = None      # what socket.setdefaulttimeout was last given
+
+    @property
+    def listening(self):
+        return self.listeners[0] if self.listeners else None
 
     def add_client(self, fragments):
         c = Client(self, len(self.clients), fragments)
